@@ -32,7 +32,8 @@ theorem C02_validate_fuel_suffices (rs : List Rule) (s : Schema) (d : QueryDoc) 
 
 /-- Number of observer calls: at most one per node and walk.  With `docEvents d` the number of
     events of one pass over every node of the document and `fragEvents d` that of all fragment
-    bodies, the walker fires at most
+    bodies (per fragment: the directives of the definition and its selection set — both are walked
+    on the first visit of the fragment in a walk), the walker fires at most
       docEvents d + (#operations + #fragments) · fragEvents d  ≤  docEvents d · (#operations + #fragments + 1)
     events (each fragment body is re-walked at most once per operation and once per stand-alone
     fragment walk). -/
